@@ -32,6 +32,7 @@ RULE = ('pool of 23 files: uamiv, lateral boundary, bpch, ICARTT, netCDF, '
         'file as probe. evaluations = probe opens; non-trivial = history is '
         'non-empty; distinct = digest of (history, probe).')
 RULE += (" Events also include re-registration, opens with reader keywords (endian='little' among them) and opens by relative name from a private working directory whose content changes between events (32 event tokens in all).")
+RULE += (' Two more bpch pool files in directories of their own (other tracers and times; a tracer without a line in its tracerinfo.dat), an event naming the block-walking reader for one of them, and three reader-naming probes after every history (25 files, 35 event tokens).')
 ASSUMPTIONS = [
     'every (history, probe) pair runs in a fork()ed child of a helper '
     'process that has imported the library and never opened a file, so the '
